@@ -355,15 +355,38 @@ fn check_c07(d: &Doc) -> Result<(), Fail> {
             if content(&back) != expect { report!("C07", shown, "the reformatted document does not keep every paragraph and field with its non-blank value lines", format!("{:?}", expect), format!("{:?} from {:?}", content(&back), t2)); }
             if content(&out) != content(&back) { report!("C07", shown, "the returned object reports other content than its printed text", format!("{:?}", content(&back)), format!("{:?}", content(&out))); }
             if comments(&t2) != comments(&text) { report!("C07", shown, "a comment is lost, changed or no longer on a line of its own", format!("{:?}", comments(&text)), format!("{:?} in {:?}", comments(&t2), t2)); }
-            if let Some(w) = width {
-                for l in t2.lines() { if l.starts_with(' ') || l.starts_with('\t') {
-                    let lead = l.len() - l.trim_start().len();
-                    if lead != w { report!("C07", shown, "a continuation line is not indented by exactly the requested width", format!("{} columns", w), format!("{} columns in {:?}", lead, t2)); }
+            {
+                // continuation lines are indented by exactly the requested width (FieldNameLength: the length of the field's name)
+                let mut cur_name_len = 0usize;
+                for l in t2.lines() {
+                    if l.starts_with(' ') || l.starts_with('\t') {
+                        let lead = l.len() - l.trim_start().len();
+                        let w = width.unwrap_or(cur_name_len);
+                        if lead != w { report!("C07", shown, "a continuation line is not indented by exactly the requested width", format!("{} columns", w), format!("{} columns in {:?}", lead, t2)); }
+                    } else if !l.starts_with('#') { if let Some(i) = l.find(':') { cur_name_len = l[..i].len(); } }
+                }
+            }
+            {
+                // a comment between two fields stays in front of the same field
+                let mut expect_pairs: Vec<(String, String)> = Vec::new();
+                for p in &d.paras { for f in &p.fields { for c in &f.comments { expect_pairs.push((c.clone(), f.name.clone())); } } }
+                let mut got_pairs: Vec<(String, String)> = Vec::new();
+                let ls: Vec<&str> = t2.lines().collect();
+                for (i, l) in ls.iter().enumerate() { if l.starts_with('#') {
+                    let mut j = i + 1;
+                    while j < ls.len() && ls[j].starts_with('#') { j += 1; }
+                    if j < ls.len() && !ls[j].is_empty() && !ls[j].starts_with(' ') { if let Some(k) = ls[j].find(':') { got_pairs.push((l.to_string(), ls[j][..k].to_string())); } }
                 } }
+                for e in &expect_pairs {
+                    if let Some(q) = got_pairs.iter().position(|g| g == e) { got_pairs.remove(q); }
+                    else { report!("C07", shown, "a comment is no longer in front of the field it belonged to", format!("{:?} in front of {:?}", e.0, e.1), format!("{:?}", t2)); }
+                }
             }
             if t2.contains("\n\n\n") { report!("C07", shown, "paragraphs are separated by more than one blank line", "exactly one".to_string(), format!("{:?}", t2)); }
             let again = run(&back).to_string();
             if again != t2 { report!("C07", shown, "reformatting the result again with the same settings changes it", format!("{:?}", t2), format!("{:?}", again)); }
+            let direct = run(&out).to_string();
+            if direct != t2 { report!("C07", shown, "reformatting the returned object again (without re-reading it) changes it", format!("{:?}", t2), format!("{:?}", direct)); }
         } } }
     }
     Ok(())
